@@ -818,6 +818,19 @@ def rule_order_arms(facts):
 
 # ====================================================================== CALL-PROV tables (small unsafe primitives)
 
+_NF = {}
+
+
+def effects_nf(facts, b):
+    """What body `b` does, in normal form (engine/nf.py): maximal call terms with always / sometimes / each flags."""
+    import nf
+    k = id(facts)
+    if k not in _NF:
+        _NF.clear()
+        _NF[k] = nf.Normalizer(facts)
+    return nf.effects(_NF[k], b)
+
+
 def call_prov_of(facts, b):
     """Each call of body `b` as 'callee(arg provenance, ..) [always|sometimes]', plus what closures passed along do."""
     pv = Prov(b)
@@ -857,7 +870,7 @@ def rule_container_prov(facts):
             continue
         key = b["qname"]
         n += 1
-        got = call_prov_of(facts, b)
+        got = effects_nf(facts, b)
         comp[key] = got
         want = CT.CALLS.get(key)
         ok = want is not None and sorted(want) == got
@@ -925,11 +938,13 @@ def rule_nonconsumption(facts):
 
 # ====================================================================== SEQ-PROV (token-set membership)
 
+# in effects normal form (engine/nf.py): iteration plumbing, closures and delegation to a sibling impl are erased
 SEQ_ALLOWED = [
     ["eq(arg1, arg2) [always]"],
     ["contains(arg1, arg2) [always]"],
-    ["contains(new(arg1), arg2) [always]", "new(arg1) [always]"],
-    ["any(iter(arg1), closure) [always]", "closure: eq(arg2, arg1.0)", "iter(arg1) [always]"],
+    ["contains(new(arg1), arg2) [always]"],
+    ["eq(elem(arg1), arg2) [each]"],
+    ["eq(elem(new(arg1)), arg2) [each]"],
 ]
 
 
@@ -942,7 +957,7 @@ def rule_seq_prov(facts):
         if b["kind"] == "Closure" or b.get("impl_trait") != "container::Seq" or b["name"] != "contains":
             continue
         n += 1
-        got = call_prov_of(facts, b)
+        got = effects_nf(facts, b)
         ok = got in [sorted(x) for x in SEQ_ALLOWED]
         r.ob(ok)
         if len(r.samples) < 3:
@@ -1226,6 +1241,8 @@ def rule_builder_prov(facts):
             continue
         if b["name"] in ("clone", "fmt", "default"):
             continue
+        if b["qname"] not in BT.BUILDERS:
+            continue            # a new inherent method (a private protocol helper, a new builder): not reviewed, not judged
         pv = Prov(b)
         writes = []
         rets = set(mirq.return_blocks(b))
